@@ -28,56 +28,65 @@ theorem mapM_dec_enc {α β : Type} (enc : α → β) (dec : β → Option α) (
   | nil => rfl
   | cons x xs ih => simp [List.mapM_cons, h, ih]
 
-/-- what the series file holds after a save, whatever it held before -/
-theorem save_series (cd : Codec P Sc Lo Row Ser PJ ScB LoB RowT SerT) (f : Folder PJ ScB LoB RowT SerT)
+/-- what the series file holds after a save, whatever it held before: exactly the encoded current series -/
+theorem save_series [BEq SerT] [LawfulBEq SerT] (cd : Codec P Sc Lo Row Ser PJ ScB LoB RowT SerT) (f : Folder PJ ScB LoB RowT SerT)
     (s : Snap P Sc Lo Row Ser) :
-    (save cd f s).seriesH5 = match f.seriesH5 with
-      | none => some (s.series.map cd.encSer)
-      | some old => some (old ++ (s.series.drop old.length).map cd.encSer) := rfl
+    (save cd f s).seriesH5 = some (s.series.map cd.encSer) := by
+  simp only [save]
+  cases hf : f.seriesH5 with
+  | none => rfl
+  | some old =>
+    simp only
+    split
+    · next hpre =>
+      rw [List.isPrefixOf_iff_prefix] at hpre
+      obtain ⟨t, ht⟩ := hpre
+      congr 1
+      have : (s.series.drop old.length).map cd.encSer = t := by
+        rw [List.map_drop, ← ht]; simp
+      rw [this, ht]
+    · rfl
 
-/-- **C04 (JSON/CSV/HDF5 back-end).**  If the folder held nothing, or an earlier checkpoint of the *same run*
-(its series rows are a prefix of the current ones), loading what `save` wrote returns exactly the saved
-state — configuration/counters/generator record, scheduler, loss, results table and all series. -/
-theorem load_save (cd : Codec P Sc Lo Row Ser PJ ScB LoB RowT SerT) (hc : Faithful cd)
-    (f : Folder PJ ScB LoB RowT SerT) (s : Snap P Sc Lo Row Ser)
-    (hpre : f.seriesH5 = none ∨ ∃ old, old <+: s.series ∧ f.seriesH5 = some (old.map cd.encSer)) :
+/-- **C04 (JSON/CSV/HDF5 back-end).**  Whatever the folder held before — nothing, an earlier checkpoint of the
+same run, a checkpoint of a different run — loading what `save` wrote returns exactly the saved state:
+configuration/counters/generator record, scheduler, loss, results table and all series. -/
+theorem load_save [BEq SerT] [LawfulBEq SerT] (cd : Codec P Sc Lo Row Ser PJ ScB LoB RowT SerT) (hc : Faithful cd)
+    (f : Folder PJ ScB LoB RowT SerT) (s : Snap P Sc Lo Row Ser) :
     load cd (save cd f s) = some s := by
-  have hser : (save cd f s).seriesH5 = some (s.series.map cd.encSer) := by
-    rw [save_series]
-    rcases hpre with h | ⟨old, ⟨t, ht⟩, h⟩
-    · rw [h]
-    · rw [h]
-      simp only [List.length_map]
-      rw [← ht]
-      simp [List.map_append]
+  have hser := save_series cd f s
   simp only [load, save] at hser ⊢
   simp only [hser]
   simp [Option.bind, hc.p, hc.sc, hc.lo, mapM_dec_enc _ _ hc.row, mapM_dec_enc _ _ hc.ser]
 
-/-- two saves in a row of a growing history (the normal life of a run) -/
-theorem load_save_save (cd : Codec P Sc Lo Row Ser PJ ScB LoB RowT SerT) (hc : Faithful cd)
+/-- the append path is really taken in the normal life of a run: when the folder holds an earlier checkpoint of
+the same run, the rows on disk are kept and only the new ones are written behind them -/
+theorem save_appends [BEq SerT] [LawfulBEq SerT] (cd : Codec P Sc Lo Row Ser PJ ScB LoB RowT SerT)
     (s1 s2 : Snap P Sc Lo Row Ser) (hgrow : s1.series <+: s2.series) :
-    load cd (save cd (save cd Folder.empty s1) s2) = some s2 := by
-  apply load_save cd hc
-  right
-  exact ⟨s1.series, hgrow, rfl⟩
+    (save cd (save cd Folder.empty s1) s2).seriesH5 =
+      some (s1.series.map cd.encSer ++ (s2.series.drop s1.series.length).map cd.encSer) := by
+  have h1 : (save cd Folder.empty s1).seriesH5 = some (s1.series.map cd.encSer) := rfl
+  simp only [save, Folder.empty]
+  have hp : (s1.series.map cd.encSer).isPrefixOf (s2.series.map cd.encSer) = true := by
+    rw [List.isPrefixOf_iff_prefix]
+    obtain ⟨t, ht⟩ := hgrow
+    exact ⟨t.map cd.encSer, by rw [← ht]; simp⟩
+  simp [hp]
 
-/-- **known finding** — a folder that holds the checkpoint of a *different* run: the old series rows stay.
-Witness with identity codecs: old run has series `[7, 8, 9]`, the new run saves `[1]`; the restored series
-are the stale `[7, 8, 9]`. -/
+/-- two saves in a row, of any two states -/
+theorem load_save_save [BEq SerT] [LawfulBEq SerT] (cd : Codec P Sc Lo Row Ser PJ ScB LoB RowT SerT) (hc : Faithful cd)
+    (s1 s2 : Snap P Sc Lo Row Ser) :
+    load cd (save cd (save cd Folder.empty s1) s2) = some s2 :=
+  load_save cd hc _ s2
+
+/-- **repaired defect** — the pinned code kept whatever rows the series file held (`saveUnchecked`): on a folder
+holding the checkpoint of a *different* run the old rows stayed.  Witness with identity codecs: old run has
+series `[7, 8, 9]`, the new run saves `[1]`; the unchecked save restores the stale `[7, 8, 9]`, the current one `[1]`. -/
 theorem stale_series_rows :
     let cd : Codec Nat Nat Nat Nat Nat Nat Nat Nat Nat Nat := ⟨id, some, id, some, id, some, id, some, id, some⟩
     let old : Snap Nat Nat Nat Nat Nat := ⟨0, 0, 0, [70, 80, 90], [7, 8, 9]⟩
     let new : Snap Nat Nat Nat Nat Nat := ⟨1, 1, 1, [10], [1]⟩
-    (load cd (save cd (save cd Folder.empty old) new)).map (·.series) = some [7, 8, 9] ∧
-    (load cd (save cd (save cd Folder.empty old) new)).map (·.rows) = some [10] := by decide
-
-/-- a repaired save (rewrite the series file unless what is on disk is a prefix) would satisfy the
-unconditional statement; shown here for the simplest repair: always rewrite -/
-theorem load_saveRewrite (cd : Codec P Sc Lo Row Ser PJ ScB LoB RowT SerT) (hc : Faithful cd)
-    (f : Folder PJ ScB LoB RowT SerT) (s : Snap P Sc Lo Row Ser) :
-    load cd (save cd { f with seriesH5 := none } s) = some s :=
-  load_save cd hc _ s (Or.inl rfl)
+    (load cd (saveUnchecked cd (save cd Folder.empty old) new)).map (·.series) = some [7, 8, 9] ∧
+    (load cd (save cd (save cd Folder.empty old) new)).map (·.series) = some [1] := by decide
 
 /-- **C04 (SQLite back-end).**  Loading after a save returns the saved row, whatever the table held. -/
 theorem sqlite_load_save {R : Type} (table : List R) (row : R) : sqlLoad (sqlSave table row) = some row := rfl
